@@ -1,7 +1,7 @@
 (** C11 — Token index round-trips every password exactly and is as compact as documented. *)
 From Spg.Base Require Import Prelude Utf8 Bytes.
-From Spg.Model Require Import Tables Token Orig.
-From Spg.Proofs Require Import TokenProofs.
+From Spg.Model Require Import Tables Rand GenM CharSets CharGen Token Orig WordList WordGen.
+From Spg.Proofs Require Import TokenProofs WordGenProofs ComposeProofs.
 Close Scope N_scope.
 
 (** Every non-empty token sequence whose values are text (valid UTF-8) of at
@@ -45,6 +45,75 @@ Theorem C11_alternating_means : forall ts,
   forall j t, nth_error ts j = Some t -> ttype t = if Nat.odd j then SeparatorType else AtomType.
 Proof. exact is_alternating_spec. Qed.
 
+
+(** "In particular every password generated from words and separators of that
+    size": the round trip composed with the generators.  A recipe over *text*
+    ([text_recipe]: AllowChars and every RequireSets entry valid UTF-8; the class
+    strings are ASCII) on every stream of raw words returns a character password
+    whose index is the single kind byte and decodes to exactly its tokens. *)
+Theorem C11_generated_character_password : forall b r ws cand rest,
+  text_recipe r -> (1 <= crLength r)%Z ->
+  run_words (char_generate b r) ws = RDone (Done cand) rest ->
+  kind (char_tokens cand) = CharacterIndexKind /\
+  exists idx, make_indices (char_tokens cand) = Done idx /\ length idx = 1 /\
+              tokenize (pw_string (char_tokens cand)) idx = Done (char_tokens cand).
+Proof. exact char_generated_roundtrip. Qed.
+
+(** Wordlist passwords: every kept word and its title-cased form non-empty text
+    of at most 255 characters ([words_text]), separator values text of at most 255
+    characters ([sep_text]: a constant, or a character recipe over text with
+    Length <= 255): on every stream the password encodes and decodes exactly. *)
+Theorem C11_generated_wordlist_password : forall title b r ws ts e rest wl,
+  run_words (wl_generate title b r) ws = RDone (Done (ts, e)) rest ->
+  wrList r = Some wl -> words_text title wl -> sep_text (wrSep r) ->
+  exists idx, make_indices ts = Done idx /\ tokenize (pw_string ts) idx = Done ts /\
+    length idx = (if N.eqb (kind ts) CharacterIndexKind then 1
+                  else if N.eqb (kind ts) FullIndexKind then 2 * length ts + 1 else length ts + 1).
+Proof. exact wl_generated_roundtrip. Qed.
+
+(** ... with a non-empty constant separator and at least two words the compact
+    alternating kind is chosen and the index has 2*Length bytes; with the empty
+    separator all tokens are atoms and the index has at most Length+1 bytes. *)
+Theorem C11_generated_wordlist_alternating : forall title b r ws ts e rest wl c,
+  run_words (wl_generate title b r) ws = RDone (Done (ts, e)) rest ->
+  wrList r = Some wl -> words_text title wl -> (wrSep r = SepChar c \/ wrSep r = SepConst c) -> text_tok c ->
+  c <> [] -> (2 <= wrLength r)%Z ->
+  kind ts = AlternatingIndexKind /\
+  exists idx, make_indices ts = Done idx /\ tokenize (pw_string ts) idx = Done ts /\
+              length idx = 2 * Z.to_nat (wrLength r).
+Proof. exact wl_generated_alternating. Qed.
+Theorem C11_generated_wordlist_no_separator : forall title b r ws ts e rest wl,
+  run_words (wl_generate title b r) ws = RDone (Done (ts, e)) rest ->
+  wrList r = Some wl -> words_text title wl -> (wrSep r = SepChar [] \/ wrSep r = SepConst []) ->
+  all_atoms ts = true /\ length ts = Z.to_nat (wrLength r) /\
+  exists idx, make_indices ts = Done idx /\ tokenize (pw_string ts) idx = Done ts /\
+              length idx <= Z.to_nat (wrLength r) + 1.
+Proof. exact wl_generated_no_separator. Qed.
+
+(** Non-vacuity of the premises: ASCII strings are text. *)
+Theorem C11_ascii_is_text : forall s, Forall (fun b => (b < 128)%N) s -> length s <= 255 -> text_tok s.
+Proof. exact ascii_text_tok. Qed.
+
+
+(** Non-vacuity of the composed theorems: a concrete list meets [words_text]
+    under the ASCII title function, and a concrete run gives the 2*Length-byte
+    alternating index. *)
+Example C11_generated_example :
+  let wl := mkWL [[97]; [98;99]]%N 0 in
+  let r := mkWLR (Some wl) 2 (SepChar [45]%N) CapFirst in
+  words_text title_ascii wl /\ text_tok [45]%N /\
+  run_words (wl_generate title_ascii default_budget r) [1; 0]%N
+  = RDone (Done ([Tok [66;99]%N AtomType; Tok [45]%N SeparatorType; Tok [97]%N AtomType], mkWLE 2 2 BonusNone None)) [] /\
+  make_indices [Tok [66;99]%N AtomType; Tok [45]%N SeparatorType; Tok [97]%N AtomType] = Done [2; 2; 1; 1]%N.
+Proof.
+  assert (A : forall s, forallb (fun b => N.ltb b 128) s = true -> length s <= 255 -> text_tok s).
+  { intros s H Hl. apply ascii_text_tok; [|exact Hl]. apply Forall_forall. intros x Hx. apply N.ltb_lt.
+    rewrite forallb_forall in H. apply H. exact Hx. }
+  split; [|split; [apply A; [reflexivity|cbn; lia]|split; vm_compute; reflexivity]].
+  unfold words_text. cbn [wlWords].
+  repeat constructor; try discriminate; try (apply A; [reflexivity|cbn; lia]).
+Qed.
+
 (** The pinned code measured lengths in bytes and chose the character kind by
     the maximum alone: both refuted on concrete inputs (known findings F3, F3b). *)
 Theorem C11_pinned_bytes_refuted :
@@ -70,5 +139,10 @@ Print Assumptions C11_kind_character.
 Print Assumptions C11_kind_var_atoms.
 Print Assumptions C11_kind_alternating.
 Print Assumptions C11_alternating_means.
+Print Assumptions C11_generated_character_password.
+Print Assumptions C11_generated_wordlist_password.
+Print Assumptions C11_generated_wordlist_alternating.
+Print Assumptions C11_generated_wordlist_no_separator.
+Print Assumptions C11_ascii_is_text.
 Print Assumptions C11_pinned_bytes_refuted.
 Print Assumptions C11_pinned_lossy_refuted.
